@@ -47,9 +47,9 @@ class Operand(aob.AbstractObject):
 
     def __eq__(self, value):
         if isinstance(value, Operand):
-            return self.value.__eq__(value.value)
+            return self.value == value.value
         else:
-            return self.value.__eq__(value)
+            return self.value == value
 
     def __repr__(self):
         return f'{type(self).__name__}({repr(self.value)})'
